@@ -149,7 +149,9 @@ def leaves(node, env, out, op=None, opname=None):
                 if H.kind(s["pat"]) == "Bind" and s.get("init") is not None:
                     # statements inside the initializer may push / return as well
                     leaves_in_expr(s["init"], e2, out, op, opname)
-                    e2.inline[s["pat"]["name"]] = (s["init"], e2.child())
+                    ce = e2.child()
+                    e2.roles.pop(s["pat"]["name"], None)
+                    e2.inline[s["pat"]["name"]] = (s["init"], ce)
                 elif H.kind(s["pat"]) == "Tuple" and s.get("init") is not None:
                     t = S.norm(s["init"], e2)
                     if t and t[0] == "tup" and len(t) - 1 == len(s["pat"]["pats"]):
